@@ -419,6 +419,31 @@ def call_entry(cfg, text, entry):
     return granted, (login if isinstance(login, (str, bool)) or login is None else repr(login)), exc
 
 
+def call_twice(cfg, text, entry_a, entry_b, variant):
+    """two checks on the SAME request object: the first with the configuration the header is valid for, the second with another
+    user table (empty) or another realm.  -> (first granted, second granted, login after the second, exception name)"""
+    ti, wi, ri, mi, ei = cfg
+    req, res = make_request('10.0.0.1', METHODS[mi], URI, [('Host', 'a.example'), ('Authorization', text)])
+
+    def one(entry, realm, users):
+        if entry == 'check_auth':
+            return bool(tools.check_auth(req, res, realm, users, lib_encrypt(ENCRYPTS[ei])))
+        if entry == 'basic_auth':
+            return tools.basic_auth(req, res, realm, users, lib_encrypt(ENCRYPTS[ei])) is None
+        return tools.digest_auth(req, res, realm, users) is None
+    exc = None
+    first = second = False
+    try:
+        first = one(entry_a, REALMS[ri], users_arg(cfg))
+        if variant == 'empty-table':
+            second = one(entry_b, REALMS[ri], {})
+        else:
+            second = one(entry_b, other_realm(REALMS[ri]), users_arg(cfg))
+    except Exception as e:  # noqa: BLE001
+        exc = type(e).__name__
+    return first, second, req.login if isinstance(req.login, (str, bool)) or req.login is None else repr(req.login), exc
+
+
 def judge_auth(cfg, spec, entry, obs, ref=None):
     """-> list of (signature, message)"""
     text, verdict, reason, user = ref or auth_verdict(cfg, spec, entry)
@@ -475,6 +500,22 @@ def auth_unit(unit, st, tier, want_sample):
                     continue
                 st.fail('auth:' + sig, '%s  [config %r]' % (msg, cfg_json(cfg)),
                         {'family': 'auth', 'cfg': list(cfg), 'spec': spec, 'entry': entry})
+            if verdict == 'accept' and obs[0] and spec.get('form', 'std') in ('std', None) and n % 7 == 0:
+                # the same request object checked a second time against another table / realm: the first success must not carry over
+                scheme = 'basic' if spec['k'] == 'basic' else 'digest'
+                for variant in ('empty-table',) + (('other-realm',) if scheme == 'digest' else ()):
+                    for entry_b in ENTRY_POINTS:
+                        if (entry_b == 'basic_auth' and scheme == 'digest') or (entry_b == 'digest_auth' and scheme == 'basic'):
+                            continue
+                        first, second, login2, exc2 = call_twice(cfg, text, entry, entry_b, variant)
+                        st.executions += 1
+                        st.counters['auth_second_check_on_the_same_request'] += 1
+                        st.outcome(('twice', entry, entry_b, variant, first, second))
+                        if first and second:
+                            st.fail('auth:second-check:%s:granted' % variant,
+                                    '%s with the right configuration, then %s with %s on the same request object: access granted again to %r; request.login=%r  [config %r]'
+                                    % (entry, entry_b, 'an empty user table' if variant == 'empty-table' else 'another realm', text, login2, cfg_json(cfg)),
+                                    {'family': 'auth2', 'cfg': list(cfg), 'text': text, 'entry_a': entry, 'entry_b': entry_b, 'variant': variant})
             if want_sample and n in (5, 400) and entry == 'check_auth':
                 st.sample({'family': 'auth', 'config': cfg_json(cfg), 'Authorization': text, 'reference': verdict, 'why': reason,
                            'observed': {'granted': obs[0], 'login': obs[1], 'exception': obs[2]}})
@@ -893,6 +934,12 @@ def replay(wit):
         bad = judge_auth(cfg, spec, entry, obs)
         out = ('configuration %r\nentry point %s, Authorization: %r\nreference: %s (%s)\nobserved: granted=%r request.login=%r exception=%r\n'
                % (cfg_json(cfg), entry, text, verdict, reason, obs[0], obs[1], obs[2]))
+    elif fam == 'auth2':
+        cfg = tuple(wit['cfg'])
+        first, second, login2, exc2 = call_twice(cfg, wit['text'], wit['entry_a'], wit['entry_b'], wit['variant'])
+        bad = [('second-check:granted', 'the second check granted access again')] if first and second else []
+        out = ('configuration %r\n%s then %s (%s) on one request object, Authorization: %r\nfirst granted=%r second granted=%r login=%r exception=%r\n'
+               % (cfg_json(cfg), wit['entry_a'], wit['entry_b'], wit['variant'], wit['text'], first, second, login2, exc2))
     elif fam == 'sess':
         scn = wit['scenario']
         obs, bad = run_session(scn)
